@@ -594,6 +594,9 @@ func (fr *Frame) evalCall(e *CExpr, ctx *evalCtx) *Val {
 		a := fr.eval1(args[0], ctx)
 		b := fr.eval1(args[1], ctx)
 		return intVal(app("*", a.t, b.t))
+	case "readOnlyMode": // ghost: the ReadOnly option in force for the store under consideration
+		fr.vc.declare("ghost$readOnly", sBool)
+		return boolVal("ghost$readOnly")
 	case "allocTop":
 		return intVal(fr.st.alloc)
 	case "has": // map membership: has(m, k)
